@@ -70,6 +70,15 @@ def check_vector(P, ver, s):
             res[(sort, minimal)] = d
     for (sort, minimal), d in res.items():
         c = dict(case, sort=sort, minimal=minimal)
+        judge_single(P, ver, s, prefix, m, eff, sc, d, sort, minimal, c)
+    judge_relations(P, ver, m, sc, res, case)
+
+
+def judge_single(P, ver, s, prefix, m, eff, sc, d, sort, minimal, c):
+    """identity / scores / metric-fields monitors on ONE as_json() result (also used as
+    icontract postcondition)."""
+    nd = T.ND[ver]
+    if True:
         # identity
         P.ev("identity")
         if d.get("vectorString") != s:
@@ -107,6 +116,11 @@ def check_vector(P, ver, s):
                             observed=repr(d[k]), effective=eff[metric])
             else:
                 P.addset("decoded_v%s" % ver, [(metric, eff[metric])])
+
+
+def judge_relations(P, ver, m, sc, res, case):
+    """sort / minimal relations between the four results."""
+    nd = T.ND[ver]
     # sort
     P.ev("sort")
     for minimal in (False, True):
@@ -200,6 +214,15 @@ def shard(P, ver, idx, nshards, n, seed):
 
 
 def run(R):
+    _run(R)
+    # objects the LIBRARY builds itself (text extractor, from_rh_vector, CLI, the repository's own tests)
+    # are judged by the same oracles through icontract contracts attached to the real classes
+    from .. import contracts
+    contracts.session(R, "C11")
+    R.require("contract:as_json")
+
+
+def _run(R):
     R.rule = RULE
     R.require("identity", "scores", "metric-fields", "sort", "minimal")
     R.assumptions = ["metric fields are located under the official schema key or, for v4, the non-schema key in use at the "
